@@ -21,6 +21,15 @@ def make_sub(name, env):
     """Fresh (impl, ref) pair for a library sub-circuit: one member per shape
     the bookkeeping distinguishes."""
     U = env.Usub
+    if name.startswith("sys:"):  # systematic family: T modes, heralds (in = out) on the listed positions
+        _, T, pos = name.split(":")
+        T = int(T); pos = [int(x) for x in pos.split(",")] if pos else []
+        u = kernel.haar(T, env.seed + 1000 + 17 * T + sum((i + 1) * (q + 1) for i, q in enumerate(pos)))
+        c = lw.Unitary(u.copy()); r = RefCircuit(T); r.unitary(0, u)
+        for i, q in enumerate(pos):
+            ph = (1, 0, 1)[i % 3]
+            c.herald(ph, q, q); r.herald(ph, q, q)
+        return c, r
     if name == "bs2":            # no heralds
         c = lw.Circuit(2); c.bs(0, reflectivity=env.R[1]); r = RefCircuit(2); r.bs(0, 1, env.R[1])
     elif name == "u3":
@@ -60,6 +69,16 @@ def make_sub(name, env):
     else:
         raise KeyError(name)
     return c, r
+
+
+def systematic_subs(sizes=(3, 4, 5), max_heralds=3):
+    """Every herald-position set of size 1..max_heralds on T modes that leaves >= 1 visible mode."""
+    out = []
+    for T in sizes:
+        for k in range(1, min(max_heralds, T - 1) + 1):
+            for pos in itertools.combinations(range(T), k):
+                out.append("sys:%d:%s" % (T, ",".join(map(str, pos))))
+    return out
 
 
 def alphabet(n, subs, rich=True):
@@ -230,6 +249,15 @@ def run(tier, seed):
         bounds["n=%d depth=%d" % (n, depth)] = {"alphabet": len(alpha), "subs": list(subs),
                                                "programs": int(a.counts["programs"])}
         acc.merge(a)
+    # ---- stage 2: pairs/triples of additions over the systematic sub family: every relative position of every
+    # existing ancilla to every new one (the prose of the property), without the other component kinds
+    for n2, sizes, d2 in (((4, (3, 4, 5), 2),) if tier == "quick" else ((4, (3, 4, 5), 2), (5, (3, 4, 5), 2), (4, (3, 4), 3))):
+        fam = systematic_subs(sizes, 3 if d2 == 2 else 2)
+        alpha2 = [("add", nm, m, False) for nm in fam for m in range(0, n2)]
+        a = explore(n2, alpha2, d2, env, "sys_n%d" % n2)
+        bounds["systematic n=%d depth=%d" % (n2, d2)] = {"subs": len(fam), "alphabet": len(alpha2),
+                                                         "programs": int(a.counts["programs"])}
+        acc.merge(a)
     meta = {
         "rule": "every parent program of length <= depth over {add(sub, m, group) for every library sub, "
                 "every m in -1..n and both group flags; bs incl. pairs straddling ancillas; ps; swaps "
@@ -237,7 +265,8 @@ def run(tier, seed):
                 "continue the program. Oracle: RefCircuit legality, user-mode count, ancilla herald "
                 "bookkeeping, heralded amplitudes (scatter comparison), argument and refused-parent "
                 "fingerprints. distinct_nontrivial = distinct scatter data of end states with >=1 legal "
-                "add and >=1 ancilla.",
+                "add and >=1 ancilla. Stage 2: all sequences of <= 2 (3) additions of a systematic family: T in 3..5 "
+                "modes with every set of <= 3 herald positions, at every placement.",
         "exhaustive": True,
         "bounds": bounds,
         "assumptions": ["Haar blocks and generic reals stand for all values (seed-varied)",
